@@ -225,6 +225,27 @@ theorem pathSum_le_length (f : V → V → Nat) (h : ∀ u v, f u v ≤ 1) : ∀
     have := h u v
     simp only [pathSum, List.length_cons] at ih ⊢; omega
 
+/-! ### `unique_ordered` -/
+
+theorem uniqueOrdered_fold_nodup : ∀ (l acc : List V), acc.Nodup →
+    (l.foldl (fun acc x => if acc.contains x then acc else acc ++ [x]) acc).Nodup
+  | [], acc, h => h
+  | x :: l, acc, h => by
+    simp only [List.foldl_cons]
+    apply uniqueOrdered_fold_nodup l
+    split
+    · exact h
+    next hc =>
+      have hx : x ∉ acc := by simpa using hc
+      exact List.nodup_append.2 ⟨h, by simp, by
+        intro a ha b hb
+        simp only [List.mem_singleton] at hb
+        subst hb
+        exact fun e => hx (e ▸ ha)⟩
+
+theorem uniqueOrdered_nodup (l : List V) : (uniqueOrdered l).Nodup :=
+  uniqueOrdered_fold_nodup l [] List.nodup_nil
+
 /-! ### forced hops: uniqueness of a route along line elements -/
 
 /-- every hop `a → b` of the list is forced: `b` is the only successor of `a`, or `a` is the only predecessor of `b`
